@@ -1283,7 +1283,8 @@ void ppDiv(word q[], word r[], const word a[], size_t n, const word b[],
 	_DIV_PRE_S4(w1, divisor[m - 1]);
 	_MUL_PRE_S4(w2, divisor[m - 1]);
 	// цикл по разрядам делимого
-	for (i = n; i >= m; --i)
+	// (без нормализации divident[n] == 0 и слова q[n - m] не существует)
+	for (i = shift ? n : n - 1; i >= m; --i)
 	{
 		// q[i - m] <- divident[i] \div divisor[m - 1]
 		dividentHi = divident[i];
